@@ -21,12 +21,12 @@ def backoff_specs():
     yield dict(family='periodic', interval=0.5, jitter=[0.25, 0.5, 0.125])
     yield dict(family='periodic')                                      # default interval
     for base, factor in ((1.0, 2.0), (0.5, 3.0), (2.0, 1.0), (0.25, 0.5)):
-        for cap in (None, base / 2, base * factor * 1.5, 10 ** 6):
+        for cap in (None, base / 2, base * factor * 1.5, 10 ** 6, 0, 0.0):
             for jit in (None, [0.25, 0.5, 0.125]):
                 yield dict(family='exponential', base=base, factor=factor, max_value=cap, jitter=jit)
     yield dict(family='exponential')                                   # defaults
     for mult in (1.0, 0.5, 3.0):
-        for cap in ('default', None, mult / 2, mult * 2.5, 10 ** 6):
+        for cap in ('default', None, mult / 2, mult * 2.5, 10 ** 6, 0):
             for jit in (None, [0.25, 0.5, 0.125]):
                 d = dict(family='fibonacci', multiplier=mult, jitter=jit)
                 if cap != 'default':
